@@ -166,7 +166,7 @@ def opCrash (s : DState) (toks : List String) : DState × String :=
           ({ s with cur := some nb }, s!"{head} live=stuck end=-")
         else
           let fin := endWorld nb
-          ({ s with cur := some nb }, s!"{head} live=ok end={fin.store}/{fin.appHash}")
+          ({ s with cur := some nb }, s!"{head} live=ok end={s.script.length}/{fin.appHash}")
   | _, _ => (s, "err:badop")
 
 def hashAfter (r : Disk) (k : Nat) : Nat := (r.blocks.take k).foldl (fun h b => execTxs h b.txs) 0
